@@ -438,6 +438,7 @@ func runC06(c *Ctx) {
 	ruleJ6(c)
 	ruleJ8(c, "J8")
 	ruleJ10(c, "J10")
+	ruleJ11(c, "J11")
 	r.Rule("J9", "MarshalJSON has an arm for every node kind", 4)
 	ruleKindSwitch(c, "J9", "CandidateNode.MarshalJSON")
 	if fn := c.libFunc("parseInt64"); fn != nil {
